@@ -127,6 +127,7 @@ func imageOf(v reflect.Value, hint string, sortKeys bool) (*model.Value, bool) {
 		}
 		fallthrough
 	case reflect.Array:
+		// (a [N]byte array marshals as a list of ints, only []byte is a blob)
 		out := model.ListV()
 		if hint == "sexp" {
 			out = model.SexpV()
@@ -165,6 +166,12 @@ func imageOf(v reflect.Value, hint string, sortKeys bool) (*model.Value, bool) {
 		case tBigInt:
 			b := v.Interface().(big.Int)
 			return model.IntV(&b), true
+		case tSymTok:
+			tk := v.Interface().(ion.SymbolToken)
+			if tk.Text != nil {
+				return model.SymV(model.T(*tk.Text)), true
+			}
+			return model.SymV(model.SID(tk.LocalSID)), true
 		case tTime:
 			tm := v.Interface().(time.Time)
 			_, off := tm.Zone()
